@@ -368,8 +368,24 @@ func fieldEvents(fd *ast.FuncDecl, info *types.Info, sepCall string) (events []f
 				walk(v.Body, mult*m)
 				return false
 			case *ast.RangeStmt:
-				undecided = "range loop in a codec function"
-				return true
+				// a range over a fixed-size array has a constant trip count
+				m := int64(-1)
+				if tv, ok := info.Types[v.X]; ok && tv.Type != nil {
+					t := tv.Type.Underlying()
+					if p, ok := t.(*types.Pointer); ok {
+						t = p.Elem().Underlying()
+					}
+					if a, ok := t.(*types.Array); ok {
+						m = a.Len()
+					}
+				}
+				if m < 0 {
+					undecided = "range loop without a constant trip count in a codec function"
+					return true
+				}
+				walk(v.X, mult)
+				walk(v.Body, mult*m)
+				return false
 			case *ast.CallExpr:
 				if se, ok := v.Fun.(*ast.SelectorExpr); ok {
 					if id, ok := se.X.(*ast.Ident); ok && id.Name == "bytes" && sepCall == "IndexByte" {
